@@ -177,7 +177,11 @@ def _numcmd(rng, sc, nvars=None, types=(0, 1, 2), accs=(0, 0, 0, 1, 2), name=b"+
         ln = size + rng.choice([0, 0, 2])
         init = bytes(rng.randrange(256) for _ in range(ln))
         if t == 4:
-            init = bytes(rng.choice(b"abc\"\\\n,;xyz") for _ in range(max(0, rng.randint(0, size - 1)))) + bytes(ln)
+            k = max(0, rng.randint(0, size - 1))
+            if rng.random() < 0.35:
+                init = bytes(rng.choice([x for x in range(1, 256) if x != 13]) for _ in range(k)) + bytes(ln)
+            else:
+                init = bytes(rng.choice(b"abc\"\\\n,;xyz\t") for _ in range(k)) + bytes(ln)
             init = init[:ln]
         vs.append(Var(t, sc.slot(ln, init), size, rng.choice(accs), None if rng.random() < 0.5 else b"v", rng.choice([0, 0, 2])))
     return Cmd(name, None, rng.choice(["", "", "w"]), vs, need_all=rng.random() < 0.3)
@@ -272,7 +276,7 @@ def f_ret(rng, sid):
     a = sc.slot(1, b"\x05")
     b = sc.slot(2, b"\x10\x20")
     vs = [Var(1, a, 1, 0, b"x", rng.choice([0, 1, 3])), Var(2, b, 2, 0, None, rng.choice([0, 1, 2]))]
-    sc.cmd(Cmd(b"+H", rng.choice([None, b"help"]), "wrxt", vs[:rng.randint(1, 2)]))
+    sc.cmd(Cmd(b"+H", rng.choice([None, b"help"]), "wrxt", vs[:rng.choice([1, 2, 2])]))
     sc.cmd(Cmd(b"+L", None, "x", None))
     sc.cmd(Cmd(b"+E", None, "rt", vs[:1], group=-1))
     codes = gen.CODES + [8, -2]
@@ -492,9 +496,104 @@ def f_access(rng, sid):
     return sc
 
 
+def f_fit(rng, sid):
+    """READ / TEST / command-list texts against command-buffer capacities at and around the exact fit"""
+    import props
+    nv = rng.randint(1, 4)
+    tmp = Scenario(sid, cap=1, buf=512, mutex=0)
+    tmp.group()
+    vs = []
+    for _ in range(nv):
+        t = rng.randrange(5)
+        size = rng.choice([1, 2, 4]) if t < 3 else rng.choice([1, 2, 3, 5, 8])
+        if t == 4:
+            k = rng.randint(0, size - 1)
+            init = bytes(rng.choice(b'ab"\\\n,xyz \t\x01\xff') for _ in range(k)) + bytes(size)
+        else:
+            init = bytes(rng.randrange(256) for _ in range(size))
+            if t in (0, 1) and rng.random() < 0.5:
+                init = rng.choice([b"\x00", b"\x09", b"\x0a", b"\x63", b"\x64", b"\xff", b"\x80", b"\x7f"]) + bytes(size)
+        init = init[:size]
+        vs.append((t, size, init, rng.choice([0, 0, 0, 1, 2]), None if rng.random() < 0.4 else bytes(rng.choice(b"abcxyz") for _ in range(rng.randint(1, 3)))))
+    name = b"+F" + bytes(rng.choice(gen.ALPHA) for _ in range(rng.randint(0, 4)))
+    desc = None if rng.random() < 0.5 else bytes(rng.choice(b"abc def") for _ in range(rng.randint(0, 8)))
+    kind = rng.choice(["read", "read", "test", "list"])
+    vars_ = [Var(t, i, size, acc, nm) for i, (t, size, init, acc, nm) in enumerate(vs)]
+    c = Cmd(name, desc, "x" if kind == "list" else "", vars_)
+    nl = rng.choice([b"\n", b"\r\n"])
+    if kind == "read":
+        parts = [props.fmt_var(v, vs[i][2]) for i, v in enumerate(vars_)]
+        L = len(name) + 1 + sum(len(x) for x in parts) + len(parts) - 1
+        line = b"AT" + name + b"?"
+    elif kind == "test":
+        txt = props.expected_test_text(c, nl)
+        L = len(txt)
+        line = b"AT" + name + b"=?"
+    else:
+        L = len(nl) + 2 + len(name) + 2 + len(nl)      # longest list line "\nAT<name>=?\n"
+        line = b"AT" + name
+    ccap = max(6, L + rng.choice([-2, -1, 0, 0, 1, 1, 2, 3]))
+    sep = rng.random() < 0.4
+    sc = Scenario(sid, cap=1, buf=ccap if sep else 2 * ccap + rng.randint(0, 1), uns=rng.choice([0, 8, 32]) if sep else -1, mutex=0)
+    sc.group()
+    for (t, size, init, acc, nm) in vs:
+        sc.slot(size, init)
+    sc.cmd(c)
+    sc.inp(line + nl)
+    drain(sc, 3000, "h=7" if kind == "list" else "")
+    return sc
+
+
+def f_bigambig(rng, sid):
+    """hundreds of commands sharing a prefix: the partial-match counter far beyond one byte"""
+    n = rng.choice([255, 256, 257, 258, 300, 512, 513])
+    pre = b"+" + bytes(rng.choice(b"ABCDEFGH") for _ in range(2))
+    buf = (n + 8) // 4 + 8
+    sc = Scenario(sid, cap=1, buf=2 * buf, uns=-1, mutex=0)
+    sc.group()
+    sc.group()
+    k = rng.randrange(n)
+    for i in range(n):
+        sc.cmd(Cmd(pre + b"%03d" % i, None, "wrxt", None, group=0 if i < n // 2 else 1))
+    tail_n = rng.randint(1, 3)
+    for i in range(tail_n):
+        sc.cmd(Cmd(b"+Z%d" % i, None, "x", None, group=1))
+    for sfx in rng.sample([b"", b"?", b"=1", b"=?", b"0", b"00", b"1"], 4):
+        sc.inp(b"AT" + pre + sfx + b"\n")
+        drain(sc, 40 * n + 800)
+    return sc
+
+
+def f_tabevt(rng, sid):
+    """abbreviated names resolved while events on commands with several variables are popped and formatted"""
+    sc = f_table(rng, sid)
+    a = sc.slot(4, b"\1\2\3\4")
+    b = sc.slot(2, b"\5\6")
+    sc.cmd(Cmd(b"+EVA", None, rng.choice(["", "r"]), [Var(1, a, 4), Var(2, b, 2), Var(0, a, 1)], group=-1))
+    sc.cmd(Cmd(b"+EVB", b"d", rng.choice(["", "t"]), [Var(1, a, 4), Var(2, b, 2)], group=-1))
+    e1, e2 = len(sc.cmds) - 2, len(sc.cmds) - 1
+    ops = []
+    for o in sc.ops:
+        if o.startswith("drain"):
+            mx = int(o.split()[1])
+            k = 0
+            while k < mx // 4:
+                step = rng.randint(1, 30)
+                ops.append("drain %d 1 1" % step)
+                k += step
+                if rng.random() < 0.5:
+                    ops.append("trig %d %d" % (rng.choice([e1, e2]), rng.choice([1, 3])))
+            ops.append(o)
+        else:
+            ops.append(o)
+    sc.ops = ops
+    return sc
+
+
 FAMILIES = {
     "mixed": f_mixed, "lines": f_lines, "table": f_table, "num": f_num, "buf": f_buf, "cap": f_cap, "ret": f_ret,
     "sched": f_sched, "evt": f_evt, "hold": f_hold, "mutex": f_mutex, "list": f_list, "access": f_access,
+    "fit": f_fit, "bigambig": f_bigambig, "tabevt": f_tabevt,
 }
 
 
@@ -507,14 +606,14 @@ def generate(seed, family, n, prefix=None):
 # (family, quick count, thorough count)
 PLAN = {
     "C01": [("lines", 60, 600), ("cap", 40, 400), ("sched", 40, 400), ("mixed", 40, 400), ("table", 20, 200)],
-    "C02": [("table", 60, 800), ("lines", 60, 500), ("mixed", 30, 300)],
-    "C03": [("cap", 60, 600), ("buf", 40, 500), ("evt", 30, 300), ("mixed", 50, 600), ("list", 20, 300), ("num", 20, 300)],
+    "C02": [("table", 50, 800), ("tabevt", 40, 500), ("bigambig", 6, 40), ("lines", 50, 500), ("mixed", 30, 300)],
+    "C03": [("cap", 60, 600), ("fit", 60, 600), ("buf", 40, 500), ("evt", 30, 300), ("mixed", 50, 600), ("list", 20, 300), ("num", 20, 300)],
     "C04": [("num", 120, 2000), ("lines", 30, 300), ("mixed", 20, 200)],
     "C05": [("buf", 120, 2000), ("lines", 30, 300), ("mixed", 20, 200)],
     "C06": [("cap", 100, 1200), ("lines", 30, 300), ("ret", 30, 300), ("mixed", 20, 200)],
-    "C07": [("access", 60, 800), ("lines", 40, 400), ("mixed", 20, 200)],
+    "C07": [("access", 60, 800), ("fit", 100, 1500), ("lines", 40, 400), ("mixed", 20, 200)],
     "C08": [("access", 100, 1200), ("lines", 30, 300), ("mixed", 20, 200)],
-    "C09": [("lines", 100, 1200), ("table", 40, 400), ("mixed", 30, 300)],
+    "C09": [("lines", 100, 1200), ("table", 40, 400), ("tabevt", 20, 300), ("mixed", 30, 300)],
     "C10": [("ret", 200, 3000), ("lines", 30, 300), ("mixed", 30, 300)],
     "C11": [("evt", 60, 700), ("mixed", 60, 700), ("sched", 30, 300), ("list", 20, 200)],
     "C12": [("sched", 100, 1200), ("mixed", 30, 300)],
@@ -524,13 +623,227 @@ PLAN = {
     "C16": [("mutex", 100, 1200), ("mixed", 40, 400)],
     "C17": [("mutex", 60, 600), ("evt", 40, 400)],
     "C18": [("mixed", 60, 700), ("evt", 50, 500), ("hold", 30, 300), ("sched", 20, 200)],
-    "C19": [("list", 120, 1500), ("lines", 30, 300)],
+    "C19": [("list", 120, 1500), ("fit", 100, 1200), ("lines", 30, 300)],
     "C20": [("lines", 100, 1200), ("cap", 30, 300), ("mixed", 20, 200)],
 }
 
 ASSUMPTIONS = {}
-META = {}
+
+
+# ------------------------------------------------------------------------------- metamorphic oracles
+# Each returns [(scenario, [messages])] for violations found by comparing two runs of the
+# IMPLEMENTATION; META_COUNT records how many twin cases were evaluated in the last call.
+
 META_COUNT = {}
+
+
+def _final_mem(scn, tr):
+    an = oracles.An(scn, tr)
+    tl = props.slot_timeline(an)
+    return tl[-1] if tl else {i: bytes((ini + bytes(ln))[:ln]) for i, (ln, ini) in enumerate(scn.slots)}
+
+
+def _hv(an):
+    return [e[:9] for li in range(len(an.lines)) for e in an.ev[li] if e[0] == "H"], [e for li in range(len(an.lines)) for e in an.ev[li] if e[0] == "V"]
+
+
+def meta_C12(seed, tier, bins):
+    """event-free input under an arbitrary schedule vs. the eager schedule: same output bytes, same
+    handler and variable-callback invocations with the same arguments, same final memory"""
+    n = 60 if tier == "quick" else 800
+    sched = generate(seed, "sched", n, prefix="C12-twin")
+    eager = []
+    for sc in sched:
+        e = copy.copy(sc)
+        e.sid = sc.sid + "-eager"
+        e.ops = [o for o in sc.ops if o.startswith(("hq", "vq"))] + ["in " + hx(sc.meta["input"]), "drain 8000 1 1"]
+        eager.append(e)
+    tr = lib.run_impl(sched + eager, bins)
+    out = []
+    for sc, e in zip(sched, eager):
+        a, b = oracles.An(sc, tr[sc.sid]), oracles.An(e, tr[e.sid])
+        if a.tr.abort or b.tr.abort or not (a.drained_ok() and b.drained_ok()):
+            continue
+        msgs = []
+        if a.outbytes() != b.outbytes():
+            msgs.append("output under the schedule %r differs from the eager output %r" % (a.outbytes()[:200], b.outbytes()[:200]))
+        ha, va = _hv(a)
+        hb, vb = _hv(b)
+        if ha != hb:
+            msgs.append("handler invocations differ: scheduled %r / eager %r" % (ha[:4], hb[:4]))
+        if va != vb:
+            msgs.append("variable callbacks differ: scheduled %r / eager %r" % (va[:4], vb[:4]))
+        if _final_mem(sc, tr[sc.sid]) != _final_mem(e, tr[e.sid]):
+            msgs.append("final variable contents differ between schedules")
+        if msgs:
+            sc.no_minimise = True
+            out.append((sc, ["C12 twin run (the eager twin feeds the whole input and drains): " + msgs[0]] + msgs[1:]))
+    META_COUNT["C12"] = len(sched)
+    return out
+
+
+def meta_C20(seed, tier, bins):
+    """the output for a concatenation of lines equals the concatenation of the outputs for each line fed
+    alone (same handlers, variables carried over)"""
+    n = 50 if tier == "quick" else 600
+    rng = random.Random(repr((seed, "C20-twin")))
+    out = []
+    cat, singles = [], []
+    for k in range(n):
+        sc = gen.rand_desc(rng, "C20-twin-%d-%d" % (seed, k), mutex=0, max_cmds=6)
+        ans = rng.choice(["3", "0", "-1", "3", "7", "0/e:x4142", "3"])
+        script = ",".join([ans] * 60)
+        vscript = ",".join([rng.choice(["0", "0", "0", "1"])] * 60)
+        lines = [gen.rand_line(rng, sc) for _ in range(rng.randint(2, 6))]
+        sc.meta["lines"] = lines
+        sc.ops = ["hq " + script, "vq " + vscript, "in " + hx(b"".join(lines)), "drain 20000 1 1"]
+        cat.append(sc)
+    tr = lib.run_impl(cat, bins)
+    for sc in cat:
+        an = oracles.An(sc, tr[sc.sid])
+        if an.tr.abort or not an.drained_ok():
+            continue
+        spans = props.line_spans(an)
+        tl = props.slot_timeline(an)
+        if len(spans) != len(sc.meta["lines"]):
+            continue
+        if len(an.handlers) + len(an.varcbs) > 50:
+            continue
+        init = {i: bytes((ini + bytes(ln))[:ln]) for i, (ln, ini) in enumerate(sc.slots)}
+        prev_end = 0
+        parts = []
+        for i, (t, a, b) in enumerate(spans):
+            memb = tl[prev_end - 1] if prev_end > 0 else init
+            one = copy.copy(sc)
+            one.sid = "%s-line%d" % (sc.sid, i)
+            one.slots = [(ln, memb[j]) for j, (ln, _) in enumerate(sc.slots)]
+            one.ops = [sc.ops[0], sc.ops[1], "in " + hx(sc.meta["lines"][i]), "drain 20000 1 1"]
+            one.meta = {"parent": sc, "index": i, "expect": bytes(x for (li, x, f, p) in an.outs if a <= li < b)}
+            parts.append(one)
+            prev_end = b
+        singles += parts
+    tr2 = lib.run_impl(singles, bins)
+    bad = {}
+    for one in singles:
+        t = tr2.get(one.sid)
+        if t is None or t.abort:
+            continue
+        got = oracles.An(one, t).outbytes()
+        if got != one.meta["expect"]:
+            p = one.meta["parent"]
+            if p.sid not in bad:
+                p.no_minimise = True
+                bad[p.sid] = (p, ["C20 twin run: line #%d %r answered %r inside the concatenation but %r when fed alone (variables carried over)" % (one.meta["index"], p.meta["lines"][one.meta["index"]], one.meta["expect"], got)])
+    META_COUNT["C20"] = len(singles)
+    return list(bad.values())
+
+
+def meta_C07(seed, tier, bins):
+    """READ output fed back as WRITE arguments restores every read-write variable"""
+    n = 80 if tier == "quick" else 1500
+    rng = random.Random(repr((seed, "C07-twin")))
+    reads = []
+    for k in range(n):
+        sc = Scenario("C07-rt-%d-%d" % (seed, k), cap=1, buf=2 * rng.choice([64, 128, 256]), mutex=0)
+        sc.group()
+        vs = []
+        for _ in range(rng.randint(1, 5)):
+            t = rng.randrange(5)
+            size = rng.choice([1, 2, 4]) if t < 3 else rng.choice([1, 2, 3, 4, 8, 16])
+            if t == 4:
+                kk = rng.randint(0, size - 1)
+                init = bytes(rng.choice([x for x in range(1, 256) if x != 13]) if rng.random() < 0.5 else rng.choice(b'a"\\\n,z\t ') for _ in range(kk)) + bytes(size)
+                init = init[:size]
+            elif rng.random() < 0.4:
+                v = rng.choice([0, 1, 2 ** (8 * size - 1) - 1, 2 ** (8 * size - 1), 2 ** (8 * size) - 1, 9, 10, 99, 100])
+                init = (v % 2 ** (8 * size)).to_bytes(size, "little")
+            else:
+                init = bytes(rng.randrange(256) for _ in range(size))
+            vs.append(Var(t, sc.slot(size, init), size, rng.choice([0, 0, 0, 0, 1]), None))
+        sc.cmd(Cmd(b"+RT", None, "", vs))
+        sc.inp(b"AT+RT?" + rng.choice([b"\n", b"\r\n"]))
+        drain(sc, 4000)
+        reads.append(sc)
+    tr = lib.run_impl(reads, bins)
+    writes = []
+    for sc in reads:
+        an = oracles.An(sc, tr[sc.sid])
+        data = [u for u in an.units if u.fsm == "c" and u.complete and not u.is_code() and not u.raw]
+        if an.tr.abort or len(data) != 1 or not bytes(data[0].payload).startswith(b"+RT="):
+            continue
+        if not any(v.acc == 0 for v in sc.cmds[0].vars):
+            continue          # nothing writable: a WRITE is refused (C08), no round trip to speak of
+        payload = bytes(data[0].payload)[4:]
+        w = copy.copy(sc)
+        w.sid = sc.sid + "-write"
+        orig = [ini for (ln, ini) in sc.slots]
+        w.slots = [(ln, bytes((x ^ 0x5A) for x in ini)) if sc.cmds[0].vars[j].acc == 0 else (ln, ini) for j, (ln, ini) in enumerate(sc.slots)]
+        w.ops = ["in " + hx(b"AT+RT=" + payload + b"\n"), "drain 6000 1 1"]
+        w.meta = {"orig": orig, "payload": payload, "read": sc}
+        writes.append(w)
+    tr2 = lib.run_impl(writes, bins)
+    out = []
+    for w in writes:
+        t = tr2.get(w.sid)
+        if t is None:
+            continue
+        an = oracles.An(w, t)
+        codes = [bytes(u.payload) for u in an.codes()]
+        fin = _final_mem(w, t)
+        msgs = []
+        if t.abort:
+            msgs.append("abort while writing back %r" % w.meta["payload"])
+        elif codes[:1] != [b"OK"]:
+            msgs.append("READ printed %r but writing it back was answered %r" % (w.meta["payload"], codes[:1]))
+        else:
+            for j, var in enumerate(w.cmds[0].vars):
+                if var.acc != 0:
+                    continue
+                a, b = w.meta["orig"][j][:var.size], fin[j][:var.size]
+                if var.type == 4:
+                    a, b = a.split(b"\0")[0], b.split(b"\0")[0]
+                if a != b:
+                    msgs.append("variable %d (type %d size %d) held %s, READ printed %r, after writing it back it holds %s" % (j, var.type, var.size, a.hex(), w.meta["payload"], b.hex()))
+        if msgs:
+            w.no_minimise = True
+            out.append((w, ["C07 round trip: " + msgs[0]] + msgs[1:]))
+    META_COUNT["C07"] = len(writes)
+    return out
+
+
+def meta_C08(seed, tier, bins):
+    """two runs that differ only in the contents of write-only variables produce identical output"""
+    n = 60 if tier == "quick" else 800
+    a = generate(seed, "access", n, prefix="C08-twin")
+    b = []
+    rng = random.Random(repr((seed, "C08-twin")))
+    for sc in a:
+        wo, other = set(), set()
+        for c in sc.cmds:
+            for var in (c.vars or []):
+                (wo if var.acc == 2 else other).add(var.slot)
+        wo -= other
+        t = copy.copy(sc)
+        t.sid = sc.sid + "-twin"
+        t.slots = [(ln, bytes(rng.randrange(256) for _ in range(ln)) if j in wo else ini) for j, (ln, ini) in enumerate(sc.slots)]
+        t.meta = {"wo": wo}
+        b.append(t)
+    tr = lib.run_impl(a + b, bins)
+    out = []
+    for x, y in zip(a, b):
+        if not y.meta["wo"]:
+            continue
+        ax, ay = oracles.An(x, tr[x.sid]), oracles.An(y, tr[y.sid])
+        if ax.tr.abort or ay.tr.abort:
+            continue
+        if ax.outbytes() != ay.outbytes() or [h[:9] for h in ax.handlers] != [h[:9] for h in ay.handlers]:
+            x.no_minimise = True
+            out.append((x, ["C08 twin run: changing only the contents of write-only slots %s changed the output: %r vs %r" % (sorted(y.meta["wo"]), ax.outbytes()[:160], ay.outbytes()[:160])]))
+    META_COUNT["C08"] = len(b)
+    return out
+
+
+META = {"C12": meta_C12, "C20": meta_C20, "C07": meta_C07, "C08": meta_C08}
 
 
 # ------------------------------------------------------------------------------- mutations
